@@ -2003,4 +2003,75 @@ theorem stack_cache_history_all_sharp (s : Sig) (body : PDict → Res Val) (unh 
     simp only [Option.getD_some]
     rw [(ValidFor.reach above hKa hv).resultOf_eq, hv.ok]
 
+/-! ## round k6: try_* and exceptions that are not `Exception`s (finding K8) -/
+
+/-- when every exception is an `Exception` the code is `tryValueCode` / `tryBackCode` of the theorems above -/
+theorem tryValueCodeB_all {A E V : Type} (f : A → Except E V) (rep : Nat) (rv : Bool) (value : V) (a : A) :
+    tryValueCodeB (fun _ => true) f rep rv value a = tryValueCode f rep rv value a := by
+  induction rep with
+  | zero => unfold tryValueCodeB tryValueCode; cases f a <;> simp
+  | succ n ih => unfold tryValueCodeB tryValueCode; cases f a <;> simp [ih]
+
+theorem tryBackCodeB_all {A E V : Type} (f : A → Except E V) (first : A → V) (a : A) :
+    tryBackCodeB (fun _ => true) f first a = tryBackCode f first a := by
+  unfold tryBackCodeB tryBackCode; cases f a <;> simp
+
+/-- **try_value with `except Exception`** (any `repeat`, `return_value` true): f's result when f returns, the fallback when f
+raises an `Exception`, and the exception itself when f raises anything else -/
+theorem try_value_base_spec {A E V : Type} (catches : E → Bool) (f : A → Except E V) (rep : Nat) (value : V) (a : A) :
+    tryValueCodeB catches f rep true value a = resultOrB catches (f a) value := by
+  induction rep with
+  | zero => unfold tryValueCodeB resultOrB; cases f a <;> simp
+  | succ n ih =>
+    unfold tryValueCodeB
+    cases h : f a with
+    | ok v => simp [resultOrB]
+    | error e =>
+      simp only [ih, h]
+      cases hc : catches e <;> simp [resultOrB, hc]
+
+/-- "exactly when", as the code has it: the fallback is returned iff f raises an `Exception` (or returns the fallback itself) … -/
+theorem try_value_fallback_iff_base {A E V : Type} (catches : E → Bool) (f : A → Except E V) (rep : Nat) (value : V) (a : A) :
+    tryValueCodeB catches f rep true value a = .ok value ↔
+      (∃ e, f a = .error e ∧ catches e = true) ∨ f a = .ok value := by
+  rw [try_value_base_spec]
+  cases f a with
+  | ok v => simp [resultOrB]
+  | error e => cases hc : catches e <;> simp [resultOrB, hc]
+
+/-- … and the wrapped call raises iff f raises something that is not an `Exception` - then that very exception -/
+theorem try_value_raises_iff {A E V : Type} (catches : E → Bool) (f : A → Except E V) (rep : Nat) (value : V) (a : A) (e : E) :
+    tryValueCodeB catches f rep true value a = .error e ↔ f a = .error e ∧ catches e = false := by
+  rw [try_value_base_spec]
+  cases f a with
+  | ok v => simp [resultOrB]
+  | error e' =>
+    cases hc : catches e' with
+    | false => simp [resultOrB, hc]; rintro rfl; exact hc
+    | true => simp [resultOrB, hc]; rintro rfl; exact hc
+
+theorem try_value_no_return_base_spec {A E V : Type} (catches : E → Bool) (f : A → Except E V) (rep : Nat) (value : V)
+    (a : A) : tryValueCodeB catches f rep false value a = f a := by
+  induction rep with
+  | zero => unfold tryValueCodeB; rfl
+  | succ n ih =>
+    unfold tryValueCodeB
+    cases h : f a with
+    | ok v => rfl
+    | error e => cases hc : catches e <;> simp [ih, h]
+
+theorem try_back_base_spec {A E V : Type} (catches : E → Bool) (f : A → Except E V) (first : A → V) (a : A) :
+    tryBackCodeB catches f first a = resultOrB catches (f a) (first a) := by
+  unfold tryBackCodeB resultOrB; cases f a <;> rfl
+
+/-- **Finding K8: "return their fallback exactly when f raises" is false of the code for a `BaseException` that is not an
+`Exception`**: `try_none(f)` where `f` raises `KeyboardInterrupt` (exception `false`, not caught) raises it, for every `repeat`;
+an ordinary exception (`true`) gives the fallback. -/
+theorem try_value_base_exception_propagates (rep : Nat) :
+    tryValueCodeB (fun e : Bool => e) (fun _ : Unit => (.error false : Except Bool Nat)) rep true 0 () = .error false ∧
+    tryValueCodeB (fun e : Bool => e) (fun _ : Unit => (.error true : Except Bool Nat)) rep true 0 () = .ok 0 := by
+  constructor
+  · exact (try_value_raises_iff _ _ rep 0 () false).2 ⟨rfl, rfl⟩
+  · exact (try_value_fallback_iff_base _ _ rep 0 ()).2 (Or.inl ⟨true, rfl, rfl⟩)
+
 end Pyg.Props.C18
